@@ -7,6 +7,7 @@ import itertools
 import json
 import os
 import pickle
+import random
 import re
 import shutil
 import subprocess
@@ -138,6 +139,92 @@ def random_value(rng, depth: int = 0):
         return {rng.choice([rng.randint(0, 50), rand_unicode(rng, 3), (1, rng.randint(0, 9)), None]): random_value(rng, depth + 1)
                 for _ in range(rng.randint(0, 4))}
     return frozenset(rng.randint(0, 100) for _ in range(rng.randint(0, 5)))
+
+
+def twinnable_value(rng, depth: int = 0):
+    """A value that has a Python-equal but different sibling (see `equal_twin`)."""
+    kinds = ["small", "small", "int", "float_int", "zero", "bool", "complex"]
+    if depth < 2:
+        kinds += ["list", "tuple", "dict", "dict_order", "dict_key"]
+    k = rng.choice(kinds)
+    if k == "small":
+        return rng.choice([0, 1])
+    if k == "int":
+        return rng.randint(-10**6, 10**6)
+    if k == "float_int":
+        return float(rng.randint(-1000, 1000))
+    if k == "zero":
+        return rng.choice([0.0, -0.0])
+    if k == "bool":
+        return rng.random() < 0.5
+    if k == "complex":
+        return complex(rng.randint(-5, 5), 0)
+    if k == "list":
+        return [random_value(rng, 2) for _ in range(rng.randint(0, 2))] + [twinnable_value(rng, depth + 1)]
+    if k == "tuple":
+        return (twinnable_value(rng, depth + 1), *[random_value(rng, 2) for _ in range(rng.randint(0, 2))])
+    if k == "dict":
+        return {"k": twinnable_value(rng, depth + 1), rand_unicode(rng, 2) + "_": random_value(rng, 2)}
+    if k == "dict_order":
+        return {key: rng.randint(0, 9) for key in rng.sample(["a", "b", "c", "d", 7, None], rng.randint(2, 4))}
+    return {rng.choice([0, 1]): rand_unicode(rng, 3), "z": rng.randint(0, 9)}
+
+
+def equal_twin(rng, v):
+    """A value w with `w == v` in Python that is nevertheless a different value (other type, other sign of zero, other dict
+    order): storing w over v must replace v. Returns v itself if it knows no such sibling."""
+    if isinstance(v, bool):
+        return rng.choice([int(v), float(v)])
+    if isinstance(v, int):
+        opts = [float(v), complex(v, 0)] if abs(v) < 2**53 else []
+        if v in (0, 1):
+            opts.append(bool(v))
+        return rng.choice(opts) if opts else v
+    if isinstance(v, float):
+        if v == 0.0:
+            return rng.choice([-v, 0, False]) if rng.random() < 0.7 else -v
+        if v == v and abs(v) < 2**53 and v == int(v):
+            return int(v)
+        return v
+    if isinstance(v, complex):
+        return v.real if v.imag == 0 else v
+    if isinstance(v, (list, tuple)):
+        idx = [i for i, x in enumerate(v) if canon(equal_twin(random.Random(0), x)) != canon(x)]
+        if not idx:
+            return v
+        i = rng.choice(idx)
+        w = list(v)
+        w[i] = equal_twin(rng, v[i])
+        return type(v)(w)
+    if isinstance(v, dict):
+        items = list(v.items())
+        if len(items) >= 2 and rng.random() < 0.6:
+            return dict(reversed(items))
+        for j, (k, x) in enumerate(items):
+            kt = equal_twin(rng, k) if isinstance(k, (bool, int, float)) else k
+            if canon(kt) != canon(k):
+                items[j] = (kt, x)
+                return dict(items)
+            xt = equal_twin(rng, x)
+            if canon(xt) != canon(x):
+                items[j] = (k, xt)
+                return dict(items)
+        return dict(reversed(items)) if len(items) >= 2 else v
+    return v
+
+
+def twin_pair(rng):
+    """(v, w): w == v, canon(w) != canon(v)."""
+    for _ in range(50):
+        v = twinnable_value(rng)
+        w = equal_twin(rng, v)
+        try:
+            same = bool(w == v)
+        except Exception:  # noqa: BLE001
+            same = False
+        if same and canon(w) != canon(v):
+            return v, w
+    return 1, True
 
 
 def b64(v) -> str:
@@ -319,7 +406,26 @@ def random_trace(rng, tid: int, with_f5: bool):
             else:
                 ops.append({"k": "load", "cat": cps(c), "e": cps(e)})
         sessions.append(ops)
-    return {"id": f"t{tid}", "cats": [cps(c) for c in cats], "values_b64": [b64(v) for v in values], "sessions": sessions, "f5": with_f5}
+    # successive values that are Python-equal but different (1 / True / 1.0, 0.0 / -0.0, dict order) through ONE entry of a
+    # documented catalog: once across a session boundary, once within a session — the later value must be what is loaded
+    ntw = 0
+    for where in ("across", "within"):
+        if rng.random() < 0.75:
+            v, w = twin_pair(rng)
+            values += [v, w]
+            iv, iw = len(values) - 2, len(values) - 1
+            c, e = cps(rng.choice(cats[:3])), cps(rng.choice(entries))
+            k = rng.randrange(len(sessions) - 1)
+            if where == "across":
+                sessions[k].append({"k": "save", "cat": c, "e": e, "vi": iv})
+                sessions[k + 1][:0] = [{"k": "save", "cat": c, "e": e, "vi": iw}, {"k": "load", "cat": c, "e": e}]
+            else:
+                sessions[k] += [{"k": "save", "cat": c, "e": e, "vi": iv}, {"k": "save", "cat": c, "e": e, "vi": iw},
+                                {"k": "load", "cat": c, "e": e}]
+                sessions[k + 1].append({"k": "load", "cat": c, "e": e})
+            ntw += 1
+    return {"id": f"t{tid}", "cats": [cps(c) for c in cats], "values_b64": [b64(v) for v in values], "sessions": sessions, "f5": with_f5,
+            "twins": ntw}
 
 
 def s_of(cp):
@@ -423,6 +529,7 @@ def check_trace(ctx, t: dict, proj: Path, res: list[list[dict]]):
     ctx.case(["trace", t["cats"], t["sessions"], t["values_b64"]], nhit >= 1 and len(t["sessions"]) >= 2,
              {"catalogs": sorted(names)[:4], "sessions": len(t["sessions"]), "loads": nloads})
     ctx.dist[f"trace:loads_with_prior_save={min(nhit, 5)}"] += 1
+    ctx.dist["trace:equal_but_different_resaves"] += t.get("twins", 0)
     if ctx.use_model:
         d = ctx.driver()
         ans = driver_batch(d, model_lines)
@@ -508,8 +615,16 @@ def random_e2e(rng, pid: int, f5: bool):
     pairs = [(c, e) for c in cats for e in entries]
     rng.shuffle(pairs)
     pairs = pairs[: (4 if f5 else rng.randint(3, 7))]
+    v1, v2 = [], []
+    for _ in pairs:
+        if rng.random() < 0.5:          # build 3 returns a value that is == the stored one but a different value
+            a, b = twin_pair(rng)
+        else:
+            a, b = random_value(rng), random_value(rng)
+        v1.append(b64(a))
+        v2.append(b64(b))
     return {"id": f"e{pid}", "cats": [cps(c) for c in cats], "pairs": [[cps(c), cps(e)] for c, e in pairs],
-            "v1": [b64(random_value(rng)) for _ in pairs], "v2": [b64(random_value(rng)) for _ in pairs],
+            "v1": v1, "v2": v2,
             "hashseeds": [rng.randrange(1, 1 << 16) for _ in range(3)], "f5": f5, "split": rng.randint(1, max(1, len(pairs) - 1))}
 
 
